@@ -1259,10 +1259,11 @@ class QueryBuilder(Selectable, Term):
         table_in_query = any(isinstance(clause, Table) and join.item in base_tables for clause in base_tables)
         if isinstance(join.item, Table) and join.item.alias is None and table_in_query:
             # On the odd chance that we join the same table as the FROM table and don't set an alias:
-            # the first numbered name that no other source of this query carries
+            # the first numbered name that no other row source of this query carries (the WITH queries are left out:
+            # with_() may be called before or after the join, and the name must not depend on that)
             taken = {
                 getattr(clause, "alias", None) or getattr(clause, "_table_name", None)
-                for clause in base_tables + [j.item for j in self._joins]
+                for clause in self._from + [self._update_table] + [j.item for j in self._joins]
                 if isinstance(clause, (Table, QueryBuilder, AliasedQuery, _SetOperation))
             }
             number = 2
